@@ -10,7 +10,7 @@ SUPERSEDED = re.compile(r'(^|\.)[^.]* \d+(\.|$)')
 
 
 def compact_case(case: Dict[str, Any]) -> Dict[str, Any]:
-    return {k: case[k] for k in ('id', 'files', 'roots', 'args', 'realtree') if k in case}
+    return {k: case[k] for k in ('id', 'files', 'roots', 'args', 'realtree', 'partial') if k in case}
 
 
 class SiteCheck(PropertyCheck):
@@ -122,6 +122,20 @@ class SiteCheck(PropertyCheck):
                 f['class'] = 'toc-backlink'
                 return
             if f['kind'] == 'dead-anchor' and href is not None and href.startswith('#') and f.get('zone') in ('member_doc', 'docstring'):
+                # stale linker page: an object rendered on this page with its OWN docstring whose linker still holds the
+                # page it had before a re-export; the fragment names a member of that former page
+                frag0 = S.unquote(href[1:])
+                for o in reg['objs']:
+                    if o['url'].split('#')[0] != f.get('page') or o.get('linker_page') is None:
+                        continue
+                    lp = reg['objs'][o['linker_page']]
+                    own_page = o if o['own'] else (reg['objs'][o['parent']] if o['parent'] is not None else o)
+                    if lp is not own_page and reg['objs'].index(lp) != (reg['objs'].index(own_page)) \
+                            and o.get('docsource') is not None and reg['objs'][o['docsource']] is o \
+                            and any(reg['objs'][ci]['name'] == frag0 for ci in lp['contents']):
+                        f['class'] = 'stale-linker-page'
+                        f['target'] = lp['full'] + '.' + frag0
+                        return
                 # inherited docstring: the link was shortened against the page of the docstring's SOURCE (a base class)
                 frag = S.unquote(href[1:])
                 pobjs = [o for o in reg['objs'] if o['own'] and o['url'] == f.get('page') and o['cls'] == 'C']
@@ -168,7 +182,10 @@ class SiteCheck(PropertyCheck):
                 if a.startswith('--theme') or a.startswith('--sidebar-expand-depth') or a == '--no-sidebar':
                     self.count('arg_' + a.lstrip('-'))
             self.count('privacy_rules', sum(1 for a in c.get('args', []) if a.startswith('--privacy')))
-            if mo is not None:
+            partial = bool(c.get('partial'))
+            if partial:
+                self.count('partial_sites_html_subject')
+            if mo is not None and not partial:
                 m = dec(mo)
                 self.count('registries_wf' if m[4] else 'registries_not_wf')
                 # hypotheses of C11_hierarchy_anchor (wf_classes): subclasses consistent with baseobjects, classes
@@ -242,7 +259,8 @@ class SiteCheck(PropertyCheck):
                 if diff and len([v for v in out if v.kind == 'correspondence']) < 5:
                     out.append(Violation('correspondence', 'Model.Site and the files pydoctor wrote disagree: '
                                          + json.dumps(diff)[:600], case=compact_case(c), expected='model', observed=diff))
-            findings = self.oracle(reg, cr)
+            # a --html-subject run writes a partial site on purpose: link liveness (C11) does not apply to it
+            findings = [] if (partial and self.which == 'C11') else self.oracle(reg, cr)
             seen_classes = set()
             for f in findings:
                 self.annotate(f, reg, cr)
